@@ -239,6 +239,26 @@ pub fn judge(case: &Case, l: &mut Local) {
                     }
                     None => {}
                 }
+                // ... and re-parsing: what the library writes for an accepted amount it must read again, with
+                // the same value
+                match guard(|| (ops.parse)(body)) {
+                    Ok(Ok(v2)) => {
+                        if let Ok(Ok(j2)) = guard(|| v2.json())
+                            && let Some(Value::Number(n)) = json_amount(&j2)
+                            && sig <= 15
+                            && canon_num(&n.to_string()) != want
+                            && amount_of_output(ty, body, pre.chars().count()).map(|o| canon_num(&o.replace(',', ".")) == want).unwrap_or(false)
+                        {
+                            v(l, ty, "value-changed-by-re-parsing", &scale_class, format!("{ty}: amount {:?} is serialised as {body:?} and read back as {n}", case.amount), case);
+                        }
+                    }
+                    Ok(Err(_)) => {
+                        let out = amount_of_output(ty, body, pre.chars().count()).unwrap_or_default();
+                        let why = if out.len() > limit { format!("written-longer-than-limit:{}", dec_class(allowed)) } else { "other".to_string() };
+                        v(l, ty, "own-serialisation-not-readable", &why, format!("{ty}: accepted amount {:?} is serialised as {body:?}, which the same parser rejects", case.amount), case);
+                    }
+                    Err(_) => {}
+                }
             }
             if let Ok(Ok(j)) = guard(|| val.json()) {
                 match json_amount(&j) {
